@@ -427,11 +427,15 @@ namespace fs {
    * The class of a case is the worst one: tiny_gap > nearly_equal > equal > distinct.
    * doubleEigenvalue3d: N=3 and exactly one pair of equal eigenvalues (whatever
    * the distance to the third one), a branch of its own in the 3D handler.
+   * equalLarge: a pair of equal eigenvalues while the largest coupled eigenvalue
+   * of C exceeds 4.5: the handler detects equal eigenvalues with the absolute
+   * threshold 1e-14, which the rounding errors of its eigen solver (a few
+   * u |C|) can then exceed.
    */
   struct StretchClass {
     R gap = 1;  //!< smallest non-equal relative gap
     const char* name = "distinct";
-    bool tiny = false, nearly = false, equal = false, doubleEigenvalue3d = false;
+    bool tiny = false, nearly = false, equal = false, doubleEigenvalue3d = false, equalLarge = false;
     int equalPairs = 0;
     //! 1/gap relaxation of a tolerance (none for distinct / equal stretches)
     R relax() const { return (tiny || nearly) ? R(1e-2L) / gap : R(1); }
@@ -465,6 +469,9 @@ namespace fs {
     r.tiny = r.gap < 1e-5L;
     r.nearly = !r.tiny && r.gap < 1e-2L;
     r.doubleEigenvalue3d = N == 3 && r.equalPairs == 1;
+    R lmax = 0;
+    for (int i = 0; i < n; ++i) lmax = std::max(lmax, l[i]);
+    r.equalLarge = r.equal && lmax > R(4.5);
     r.name = r.tiny ? "tiny_gap"
                     : (r.nearly ? "nearly_equal"
                                 : (r.equal ? (r.equalPairs == 3 ? "three_equal" : "two_equal") : "distinct"));
